@@ -77,9 +77,57 @@ def blocks_of(path):
     return out
 
 
+EMPTY_LIB = """library: holder
+cxx_header: holder.hpp
+options:
+  wrap_python: false
+  wrap_lua: false
+declarations:
+- decl: int add(int a, int b)
+- decl: class Holder
+- decl: namespace detail
+  declarations:
+  - decl: class Impl
+    declarations:
+    - decl: int value()
+"""
+
+
+def check_unwritten(inp):
+    """file-level blocks of a scope whose implementation file would otherwise be empty (a class without methods, a
+    namespace that only holds classes): the user's code makes the file, it does not vanish"""
+    d = tempfile.mkdtemp(prefix="mspl_")
+    try:
+        tags = {"class.Holder.C_definitions": "// USERLINE_holder_cdef", "class.Holder.CXX_definitions": "// USERLINE_holder_cxxdef",
+                "namespace.detail.C_definitions": "// USERLINE_detail_cdef", "namespace.detail.CXX_definitions": "// USERLINE_detail_cxxdef"}
+        for tag in inp["tags"]:
+            uniq = tags[tag]
+            try:
+                if inp["via"] == "code":
+                    out = run(EMPTY_LIB, d, splicer_code={"c": nest({tag: [uniq]})})
+                else:
+                    fn = os.path.join(d, "user_splicer.c")
+                    open(fn, "w").write("// splicer begin %s\n%s\n// splicer end %s\n" % (tag, uniq, tag))
+                    out = run(EMPTY_LIB, d, extra_files=[fn])
+            except Exception:
+                return None
+            found = user_lines(out)
+            if uniq not in found:
+                return "user code supplied for block %s (%s) is in no generated file: %s" % (tag, inp["via"], sorted(
+                    n for n in os.listdir(out) if n.endswith((".cpp", ".h"))))
+            bad = [g for g in found[uniq] if g[1] != tag]
+            if bad:
+                return "user code supplied for block %s landed in block %s of %s" % (tag, bad[0][1], bad[0][2])
+        return None
+    finally:
+        shutil.rmtree(d, ignore_errors=True)
+
+
 def check(inp):
     if inp.get("how") == "decl":
         return check_decl(inp)
+    if inp.get("how") == "unwritten":
+        return check_unwritten(inp)
     d = tempfile.mkdtemp(prefix="mspl_")
     try:
         try:
@@ -120,7 +168,7 @@ def check(inp):
         if not expect:
             return None
         how = inp.get("how", "cmdline")
-        if how in ("code", "mixed", "collide"):
+        if how in ("code", "mixed", "collide", "twofiles", "twofiles-yaml"):
             return check_sources(inp, d, out, files, expect, how)
         # a nested tag first, a file-level tag last, in both files: order of blocks in a splicer file is the user's choice
         names = {}
@@ -188,6 +236,37 @@ def check_sources(inp, d, out, files, expect, how):
     by_kind = {"c": {}, "f": {}}
     for uniq, (kind, tag) in expect.items():
         by_kind[kind][tag] = uniq
+    if how.startswith("twofiles"):
+        # the blocks of a language alternate between TWO splicer files (neighbouring tags share their name prefixes)
+        parts = {("c", 0): [], ("c", 1): [], ("f", 0): [], ("f", 1): []}
+        want = {}
+        for kind in ("c", "f"):
+            lead = "//" if kind == "c" else "!"
+            for i, (tag, uniq) in enumerate(sorted(by_kind[kind].items())):
+                parts[(kind, i % 2)] += ["%s splicer begin %s" % (lead, tag), uniq, "%s splicer end %s" % (lead, tag), ""]
+                want[uniq] = (kind, tag)
+        names = {}
+        for (kind, k), lines in parts.items():
+            fn = os.path.join(d, "user%d_splicer.%s" % (k, kind))
+            open(fn, "w").write("\n".join(lines) + "\n")
+            names[(kind, k)] = fn
+        try:
+            if how == "twofiles-yaml":
+                out2 = run(inp["yaml"], d, splicer_yaml={"c": [os.path.basename(names[("c", 0)]), os.path.basename(names[("c", 1)])],
+                                                          "f": [os.path.basename(names[("f", 0)]), os.path.basename(names[("f", 1)])]})
+            else:
+                out2 = run(inp["yaml"], d, extra_files=[names[("c", 0)], names[("c", 1)], names[("f", 0)], names[("f", 1)]])
+        except Exception as e:
+            return "the generator rejects two splicer files per language: %s" % str(e)[:200]
+        found = user_lines(out2)
+        for uniq, (kind, tag) in sorted(want.items()):
+            got = found.get(uniq, [])
+            if not got:
+                return "[%s] user code supplied for block %s (%s) is not in any generated file" % (how, tag, "C" if kind == "c" else "Fortran")
+            bad = [g for g in got if g[0] != kind or g[1] != tag]
+            if bad:
+                return "[%s] user code supplied for block %s landed in block %s of %s" % (how, tag, bad[0][1], bad[0][2])
+        return None
     code, filetext, want = {}, {"c": [], "f": []}, {}
     for kind in ("c", "f"):
         lead = "//" if kind == "c" else "!"
@@ -354,5 +433,8 @@ def candidates(seed, around=None):
     for keys in (["c"], ["f"], ["c", "f"], ["c", "c_buf"], ["c_buf"], ["c", "c_buf", "f"]):
         yield {"how": "decl", "keys": keys}
     for y in LIBS:
-        for how in ("code", "mixed", "collide"):
+        for how in ("code", "mixed", "collide", "twofiles", "twofiles-yaml"):
             yield {"yaml": y, "how": how}
+    for via in ("code", "file"):
+        yield {"how": "unwritten", "via": via, "tags": ["class.Holder.C_definitions", "namespace.detail.C_definitions"]}
+        yield {"how": "unwritten", "via": via, "tags": ["class.Holder.CXX_definitions", "namespace.detail.CXX_definitions"]}
